@@ -13,12 +13,14 @@ RULE = ('rate: call histories (1-14 calls; gaps/sleep overshoots/durations in ti
         'empty) files and possibly empty payloads; in half of the cache histories the server answers differently from call to call (empty '
         'answers, CRLF FASTA, GenBank records with complement()/join() features when rettype=gb) and every sequence returned by get_* is '
         'compared - id, residues, feature types, locations and strands - with read(payload) and with a hand-written expectation, cached or '
-        'not, and re-inspected after every later call; non-trivial = distinct history in which a sleep happened (rate) or a cache hit happened (cache)')
+        'not, and re-inspected after every later call; client (round 7): histories (1-8 calls, and long ones of 12-40 calls) on ONE client object over the whole API (fetch_seq/get_seq/fetch_basket/get_basket, client.path and path= incl. empty string / trailing slash / tilde / Path objects, ext None/empty/dotted, up to 9 ids incl. dotted, case variants, hidden names, duplicates in lists), api_key switched between calls (None, empty string, two keys), requests failing in requests.get or raise_for_status, per-request sleep overshoot and duration; start times, sleeps, key sent, files and results compared with run_C19_client; non-trivial = distinct history in which a sleep happened (rate) or a cache hit happened (cache)')
 TRUSTED = ['time.sleep sleeps at least its argument, perf_counter is monotone (environment assumptions of the model: eps >= 0, gap >= 0, dur >= 0)',
            'no time passes between recording a request time and issuing the request (the model identifies them)',
            'float arithmetic on multiples of 2^-10 s is exact (the harness uses only such times); ulp effects of real clocks are outside the model',
            'os/file system, requests (stubbed), sugar.read (used to parse payloads)',
-           'modelled: Entrez.wait_before_request, the cache decision of fetch_seq, fetch_basket/get_* as iteration (_entrez.py:26-76)']
+           'modelled: Entrez.wait_before_request, the cache decision of fetch_seq, fetch_basket/get_* as iteration (_entrez.py:26-76)',
+           'client stream: the whole of _entrez.py:26-77 incl. path/ext defaults, os.path.join file names, per-call limit choice, failing requests (run_C19_client); '
+           'sugar.read is an oracle (texts are compared, parsed records are checked against read(payload) and hand-written expectations)']
 ASSUMPTIONS = ['single-threaded client', 'integer-tick virtual clock']
 LEVEL_TEXT = ('Coq theorems for every call history with arbitrary non-negative arrival gaps, sleep overshoots and request durations: the request '
               'N places earlier started at least one window before, hence at most N starts in any half-open one-second window (N, window from '
@@ -87,6 +89,11 @@ def gen_cases(rng, tier):
                     c['pay'] = [x if x is not None else rng.choice(GB_PAY) for x in c['pay']]
             calls.append(c)
         cases.append({'kind': 'cache', 'payloads': payloads, 'files': files, 'calls': calls})
+    nclient, nlong = (6000, 600) if tier == 'thorough' else (500, 40)
+    for _ in range(nclient):
+        cases.append(gen_client_case(rng))
+    for _ in range(nlong):
+        cases.append(gen_client_case(rng, long_=True))
     return cases
 
 
@@ -117,6 +124,9 @@ class _World:
         E.sleep = self._sleep
         stub = types.ModuleType('requests')
         stub.get = self._get
+        stub.ConnectionError = type('ConnectionError', (IOError,), {})
+        stub.HTTPError = type('HTTPError', (IOError,), {})
+        self.stub = stub
         sys.modules['requests'] = stub
 
     def restore(self):
@@ -133,12 +143,39 @@ class _World:
         self.slept = int(t) + self.eps
 
     def _get(self, url, params=None):
+        if getattr(self, 'client_mode', False):
+            return self._get_client(url, params)
         self.starts.append(self.clock)
         self.requested.append(params['id'])
         assert params['db'] == 'nuccore' and params['tool'] == 'sugar'
         assert getattr(self, 'want_rettype', None) in (None, params['rettype']), 'rettype not forwarded'
         self.clock += self.dur
         return _Resp(self.payload(params['id']))
+
+
+def _get_client(self, url, params=None):
+    """client stream: every request takes the next environment entry of the running call (sleep overshoot was taken from the
+    same entry by _sleep); a request may fail in requests.get (ConnectionError) or in raise_for_status (HTTPError)"""
+    k = len(self.reqlog)
+    eps, dur, pay, http = self.env[k] if k < len(self.env) else (0, 0, '', False)
+    self.reqlog.append({'id': params['id'], 'start': self.clock, 'slept': self.slept or 0,
+                        'key': params.get('api_key', None), 'rettype': params.get('rettype'), 'url': url,
+                        'other': (params.get('db'), params.get('retmode'), params.get('tool'))})
+    self.slept = None
+    self.clock += dur
+    self.eps = self.env[k + 1][0] if k + 1 < len(self.env) else 0
+    if pay is None and not http:
+        raise self.stub.ConnectionError('stub: connection failed')
+    r = _Resp(pay)
+    if pay is None:
+        def _raise():
+            raise self.stub.HTTPError('stub: 429')
+        r.raise_for_status = _raise
+        r.text = '<html>error</html>'
+    return r
+
+
+_World._get_client = _get_client
 
 
 def impl_rate(case):
@@ -291,8 +328,276 @@ def impl_cache(case):
         shutil.rmtree(root, ignore_errors=True)
 
 
+# ----------------------------------------------------------------------------- client stream (round 7): one client object, whole API
+# model strings of the cache directories; a leading 'R' stands for the scratch root. 'R/p0/' is the same directory as 'R/p0';
+# '~/cache' and '' are relative to the working directory (a scratch directory); '' as path= falls back to client.path, '' as
+# client.path makes the working directory the cache
+CDIRS = ['R/p0', 'R/sub/p1', 'R/p0/', '~/cache', '']
+CIDS = ['AB0001.1', 'AB0001.2', 'AB0001', 'ab0001.1', 'X', 'NC_000001', 'a b', '.hid', 'AB0001.1.fasta']
+CKEYS = [None, '', 'KEY', 'K2']
+MULTI = '>r1\nAC\n>r2 two\nGG\nT\n'
+EXPECT_LIST = {MULTI: [('r1', 'AC', []), ('r2', 'GGT', [])]}
+
+
+def _expected_list(content):
+    return EXPECT_LIST[content] if content in EXPECT_LIST else [_expected_obs(content)]
+
+
+def cname(dirstr, sid, ext):
+    """file name the documentation promises: <cache directory>/<id>.<ext> (written from first principles, not with os.path)"""
+    base = sid + '.' + ext
+    if dirstr == '':
+        return base
+    return dirstr + base if dirstr.endswith('/') else dirstr + '/' + base
+
+
+def op_ext(o):
+    return o['rettype'] if o['ext'] is None else o['ext']
+
+
+def op_dir(o):
+    """effective cache directory string or None"""
+    d = CDIRS[o['path']] if o['path'] is not None else None
+    if not d:
+        d = CDIRS[o['self']] if o['self'] is not None else None
+    return d
+
+
+def op_idlist(o):
+    return o['ids'][:1] if o['m'].endswith('seq') else o['ids']
+
+
+def gen_client_case(rng, long_=False):
+    nops = rng.randrange(12, 40) if long_ else rng.randrange(1, 9)
+    style = rng.choice(['nokey', 'key', 'mixed', 'mixed', 'up'])
+    pool_ids = rng.sample(CIDS, rng.randrange(1, 4)) if not long_ else rng.sample(CIDS, rng.randrange(3, len(CIDS) + 1))
+    fail_rate = rng.choice([0, 0, .1, .3])
+    burst = rng.random() < .5
+    files = []
+    for d in (0, 1, 3, 4):
+        for sid in pool_ids:
+            if rng.random() < .12:
+                files.append([d, sid, rng.choice(['fasta', 'fa', 'gb']), rng.choice(['', '>old\nAAAA\n'])])
+    ops = []
+    key = {'nokey': None, 'key': 'KEY', 'mixed': rng.choice(CKEYS), 'up': None}[style]
+    selfpath = rng.choice([None, None, 0, 1, 4])
+    for k in range(nops):
+        if style == 'mixed' and rng.random() < .25:
+            key = rng.choice(CKEYS)
+        if style == 'up' and rng.random() < .15:
+            key = 'KEY'
+        if rng.random() < .1:
+            selfpath = rng.choice([None, 0, 1, 3, 4])
+        m = rng.choice(['fetch_seq', 'get_seq', 'fetch_basket', 'get_basket'])
+        ids = [rng.choice(pool_ids) for _ in range(1 if m.endswith('seq') else rng.randrange(0, 5))]
+        rettype = rng.choice(['fasta', 'fasta', 'gb'])
+        ext = rng.choice([None, None, 'fa', 'fasta', '', '1.fasta'])
+        pool = GB_PAY if rettype == 'gb' else FASTA_PAY + [MULTI]
+        env = []
+        for _ in range(len(ids)):
+            if rng.random() < fail_rate:
+                pay, http = None, rng.random() < .5
+            else:
+                pay, http = (rng.choice(pool) if rng.random() < .9 else ''), False
+            env.append([rng.choice([0, 0, 0, 1, 7, 256]), rng.choice([0, 0, 1, 100, 256, 1024]), pay, http])
+        ops.append({'m': m, 'gap': 0 if burst and rng.random() < .8 else rng.choice(VALS), 'key': key, 'self': selfpath,
+                    'path': rng.choice([None, None, 0, 0, 1, 2, 3, 4]), 'pathobj': rng.random() < .15, 'ids': ids,
+                    'rettype': rettype, 'ext': ext, 'ow': rng.random() < .2, 'env': env})
+    return {'kind': 'client', 'files': files, 'ops': ops}
+
+
+def _real(root, name):
+    return root + name[1:] if name.startswith('R') else name
+
+
+def impl_client(case):
+    from sugar import read
+    import pathlib
+    w = _World()
+    w.install()
+    w.client_mode = True
+    root = tempfile.mkdtemp(prefix='C19-')
+    saved_env = (os.getcwd(), os.environ.get('HOME'))
+    try:
+        os.makedirs(os.path.join(root, 'cwd'))
+        os.makedirs(os.path.join(root, 'home', 'cache'))
+        os.chdir(os.path.join(root, 'cwd'))
+        os.environ['HOME'] = os.path.join(root, 'home')
+        for d, sid, ext, content in case['files']:
+            fn = _real(root, cname(CDIRS[d], sid, ext))
+            if os.path.dirname(fn):
+                os.makedirs(os.path.dirname(fn), exist_ok=True)
+            with open(fn, 'w', newline='') as f:
+                f.write(content)
+        client = w.E.Entrez(path=None, api_key=None)
+        out = []
+        for o in case['ops']:
+            w.clock += o['gap']
+            client.api_key = o['key']
+            client.path = None if o['self'] is None else _real(root, CDIRS[o['self']])
+            path = None if o['path'] is None else _real(root, CDIRS[o['path']])
+            if path and o.get('pathobj'):
+                path = pathlib.Path(path)
+            w.env, w.reqlog, w.slept = o['env'], [], None
+            w.eps = o['env'][0][0] if o['env'] else 0
+            ids = op_idlist(o)
+            kw = dict(rettype=o['rettype'], ext=o['ext'], overwrite=o['ow'], path=path)
+            res, err = None, None
+            try:
+                if o['m'] == 'fetch_seq':
+                    res = client.fetch_seq(ids[0], **kw)
+                elif o['m'] == 'get_seq':
+                    res = client.get_seq(ids[0], **kw)
+                elif o['m'] == 'fetch_basket':
+                    res = client.fetch_basket(ids, **kw)
+                else:
+                    res = client.get_basket(ids, **kw)
+            except Exception as ex:
+                err = ex
+            d = op_dir(o)
+            ext = op_ext(o)
+            # requests -> id occurrences (in order)
+            failed = err is not None and type(err).__name__ in ('ConnectionError', 'HTTPError')
+            evs = []
+            pend = list(w.reqlog)
+            for kk, sid in enumerate(ids):
+                if pend and pend[0]['id'] == sid:
+                    r = pend.pop(0)
+                    assert r['rettype'] == o['rettype'] and r['other'] == ('nuccore', 'text', 'sugar'), 'request parameters %r' % (r,)
+                    assert r['url'].startswith('https://eutils.ncbi.nlm.nih.gov/'), r['url']
+                    assert (r['key'] is not None) == bool(o['key']) and r['key'] in (None, o['key']), 'api_key sent: %r, client has %r' % (r['key'], o['key'])
+                    evs.append([True, r['start'], r['slept'], r['key'] is not None, sid])
+                    if failed and not pend:
+                        break
+                else:
+                    evs.append([False, 0, 0, bool(o['key']), sid])
+            assert not pend, 'requests that belong to no id of the call: %r' % pend
+            contents = []
+            for e in evs:
+                fn = None if d is None else _real(root, cname(d, e[4], ext))
+                contents.append(None if fn is None else (_raw(fn) if os.path.isfile(fn) else None))
+                e[4] = contents[-1]
+            # result
+            if failed:
+                val = {'e': type(err).__name__}
+            elif o['m'].startswith('fetch'):
+                assert err is None, 'fetch raised %r' % err
+                rl = [res] if o['m'] == 'fetch_seq' else list(res)
+                assert len(rl) == len(ids)
+                vals = []
+                for r_ in rl:
+                    if hasattr(r_, 'getvalue'):
+                        vals.append(['handle', r_.getvalue()])
+                    else:
+                        assert type(r_) is str, 'file name is a %s' % type(r_).__name__
+                        vals.append(['name', 'R' + r_[len(root):] if r_.startswith(root) else r_])
+                val = vals[0] if o['m'] == 'fetch_seq' else vals
+            else:
+                # delivered texts: file content after the call, or the in-memory answers (in request order)
+                if d is None:
+                    texts = [o['env'][k][2] for k in range(len(ids))]
+                else:
+                    texts = contents
+                if all(texts):
+                    assert err is None, 'get_* failed on non-empty texts: %r' % err
+                    got = [res] if o['m'] == 'get_seq' else list(res)
+                    exp_read = [[_obs(x) for x in read(io.StringIO(t))] for t in texts]
+                    exp_hand = [_expected_list(t) for t in texts]
+                    assert exp_read == exp_hand, 'read(payload) %r is not what the payload says %r' % (exp_read, exp_hand)
+                    flat = [exp_read[0][0]] if o['m'] == 'get_seq' else [x for l in exp_read for x in l]
+                    assert [_obs(x) for x in got] == flat, 'returned %r, read(payload) gives %r' % ([_obs(x) for x in got], flat)
+                    val = texts[0] if o['m'] == 'get_seq' else texts
+                else:
+                    assert err is not None, 'get_* returned %r for texts %r' % (res, texts)
+                    val = {'e': 'read'}
+            out.append([[e for e in evs], val])
+        return out
+    finally:
+        w.restore()
+        os.chdir(saved_env[0])
+        if saved_env[1] is None:
+            os.environ.pop('HOME', None)
+        else:
+            os.environ['HOME'] = saved_env[1]
+        shutil.rmtree(root, ignore_errors=True)
+
+
+def client_term(case):
+    files = coq_list([coq_pair(coq_bs(cname(CDIRS[d], sid, ext)), coq_bs(ct)) for d, sid, ext, ct in case['files']])
+    ops = []
+    for o in case['ops']:
+        env = coq_list([coq_pair(coq_z(e), coq_z(du), coq_opt(pay, coq_bs), coq_bool(http)) for e, du, pay, http in o['env']])
+        ops.append(coq_pair(coq_N(['fetch_seq', 'get_seq', 'fetch_basket', 'get_basket'].index(o['m'])), coq_z(o['gap']),
+                            coq_bool(bool(o['key'])), coq_opt(None if o['self'] is None else CDIRS[o['self']], coq_bs),
+                            coq_opt(None if o['path'] is None else CDIRS[o['path']], coq_bs),
+                            coq_list([coq_bs(i) for i in o['ids']]), coq_bs(o['rettype']), coq_opt(o['ext'], coq_bs),
+                            coq_bool(o['ow']), env))
+    return 'out (run_C19_client %s %s)' % (files, coq_list(ops))
+
+
+def spec_client(case, iv):
+    """first principles: (a) the documented cache decision, file by file; (b) the window limit on the observed start times"""
+    fs = {cname(CDIRS[d], sid, ext): ct for d, sid, ext, ct in case['files']}
+    starts = []          # (time, with key)
+    for o, (evs, val) in zip(case['ops'], iv):
+        d, ext = op_dir(o), op_ext(o)
+        k = 0
+        exp, texts, failed = [], [], None
+        for sid in op_idlist(o):
+            fn = None if d is None else cname(d, sid, ext)
+            if fn is not None and fs.get(fn) and not o['ow']:
+                exp.append([False, fs[fn]])
+                texts.append(fs[fn])
+                continue
+            eps, dur, pay, http = o['env'][k]
+            k += 1
+            if pay is None:
+                exp.append([True, fs.get(fn) if fn is not None else None])
+                failed = 'HTTPError' if http else 'ConnectionError'
+                break
+            if fn is not None:
+                fs[fn] = pay
+            texts.append(pay)
+            exp.append([True, pay if fn is not None else None])
+        # files are observed after the call
+        exp = [[r, (fs.get(cname(d, sid, ext)) if d is not None else None)] for (r, _), sid in zip(exp, op_idlist(o))]
+        got = [[e[0], e[4]] for e in evs]
+        if got != exp:
+            return 'cache decision differs from the documented one: expected %r got %r' % (exp, got)
+        if failed:
+            if val != {'e': failed}:
+                return 'a failing request must raise %s, got %r' % (failed, val)
+        elif o['m'].startswith('get'):
+            if d is not None:       # the files are read after all fetches of the call
+                texts = [fs[cname(d, sid, ext)] for sid in op_idlist(o)]
+            want = {'e': 'read'} if not all(texts) else (texts[0] if o['m'] == 'get_seq' else texts)
+            if val != want:
+                return 'get_* delivered %r, expected %r' % (val, want)
+        for e in evs:
+            if e[0]:
+                starts.append((e[1], e[3], e[2]))
+    # rate (the property's numbers): constant key -> 3 / 10; key switched on later -> 3 before, 10 after;
+    # any history -> never more than 10. PENDING FIX keyswitch: after the key was REMOVED the client keeps its 10-slot history and
+    # lets up to 10 keyless requests start within a second (see build/pending_fixes/C19_keyswitch.txt): only "<= 10" is checked there
+    W = TICKS
+    ts = [t for t, _, _ in starts]
+    if any(b < a for a, b in zip(ts, ts[1:])):
+        return 'start times go backwards: %r' % ts
+    for k in range(len(ts)):
+        lim_seq = [10 if kf else 3 for _, kf, _ in starts[:k + 1]]
+        N = lim_seq[-1] if all(a <= b for a, b in zip(lim_seq, lim_seq[1:])) else 10
+        if k - N >= 0 and ts[k] - ts[k - N] < W:
+            return 'requests %d..%d (limit %d) start within %d < %d ticks' % (k - N, k, N, ts[k] - ts[k - N], W)
+        if starts[k][2] and len(set(lim_seq)) == 1:
+            t = ts[k] - starts[k][2]
+            recent = [x for x in ts[:k] if x > t - W]
+            if len(recent) < N:
+                return 'request %d slept %d ticks although only %d requests started in the last second' % (k, starts[k][2], len(recent))
+    return None
+
+
 def impl(case):
-    return impl_rate(case) if case['kind'] == 'rate' else impl_cache(case)
+    return {'rate': impl_rate, 'cache': impl_cache, 'client': impl_client}[case['kind']](case)
 
 
 # ----------------------------------------------------------------------------- model terms
@@ -300,6 +605,8 @@ def model_term(case):
     if case['kind'] == 'rate':
         cs = coq_list([coq_pair(coq_z(g), coq_z(e), coq_z(d)) for g, e, d in case['calls']])
         return 'out (run_C19_rate %s %s)' % (coq_bool(case['api']), cs)
+    if case['kind'] == 'client':
+        return client_term(case)
     files = coq_list([coq_pair(coq_N(p), coq_N(i), coq_N(e), coq_bs(ct)) for p, i, e, ct in case['files']])
     flat = []
     for c in case['calls']:
@@ -318,6 +625,8 @@ def agree(case, iv, mv):
         return iv == mv
     if isinstance(iv, dict):
         return False
+    if case['kind'] == 'client':
+        return iv == mv
     flat = [x for call in iv for x in call]
     # a get_* call on several ids stops at the first failing read only after all fetches: fetch part is complete
     return flat == mv
@@ -354,6 +663,8 @@ def spec(case, iv):
                     return 'call %d slept %d ticks although only %d requests started in the last second' % (k, slept[k], len(recent))
             end = starts[k] + dur
         return None
+    if case['kind'] == 'client':
+        return spec_client(case, iv)
     # cache: simulate the documented decision
     fs = {(p, i, EXT[e] or 'fasta'): ct for p, i, e, ct in case['files']}
     exp = []
@@ -380,6 +691,10 @@ def nontrivial(case, iv):
         return None
     if case['kind'] == 'rate':
         return 'slept' if any(iv[1]) else None
+    if case['kind'] == 'client':
+        evs = [e for o in iv for e in o[0]]
+        marks = sorted({'hit' if not e[0] else 'slept' if e[2] else 'req' for e in evs} | {'exc' for o in iv if isinstance(o[1], dict)})
+        return '+'.join(marks) if ('hit' in marks or 'slept' in marks) else None
     return 'hit' if any(not f for call in iv for f, _ in call) else None
 
 
@@ -387,6 +702,9 @@ def histkey(case, iv):
     if case['kind'] == 'rate':
         return ['rate', 'len=%d' % len(case['calls']), 'api' if case['api'] else 'nokey',
                 'slept' if not isinstance(iv, dict) and any(iv[1]) else 'noslept']
+    if case['kind'] == 'client':
+        ks = {bool(o['key']) for o in case['ops']}
+        return ['client', 'ops=%d' % (len(case['ops']) // 5 * 5), 'keys=' + ('mixed' if len(ks) > 1 else 'const')] + sorted({o['m'] for o in case['ops']})
     return ['cache', 'calls=%d' % len(case['calls'])] + sorted({c['m'] for c in case['calls']})
 
 
